@@ -6,7 +6,9 @@ in : {"ucd":{"word":[cp…],"digit":[…],"space":[…]}, "rxlib":[RX…],
      RX = ["eps"] | ["chr",cp] | ["any"] | ["all"] | ["set",neg,[["c",cp]|["r",lo,hi]|["e","d"|"w"|"s"]…]] | ["esc",k,neg]
         | ["seq",RX,RX] | ["alt",RX,RX] | ["rep",greedy,min,max|null,RX]
      or {"op":"tables"}  (the ASCII tables of the model, compared with `re` by the harness)
-out: {"rxtext":[T…], "rxok":[bool…], "compile":["ok"|"reerror"|"unsupported"…], "regex":[T|null…], "gen":[T|null…],
+     a route may carry the add_route layer: "top":T|null, "prefixes":[T|null…], "usepath":bool, "inherit":bool, "nopattern":bool
+out: {"connected":[T | "patternNone" | "inheritSlash"…] (the pattern add_route hands to connect; refused ones are not declared),
+      "rxtext":[T…], "rxok":[bool…], "compile":["ok"|"reerror"|"unsupported"…], "regex":[T|null…], "gen":[T|null…],
       "routelist":[id…], "unsupported":bool, "outcome":"urldecode"|"none"|{"id":n,"idx":i,"match":[[T,"s",T]|[T,"t",[T…]]…]},
       "spec": same shape as outcome (least qualifying index, computed independently of the loop), "calls":[[id,k]…],
       "nmatch":[number of ways each listed route's pattern matches the path]} -/
@@ -109,14 +111,38 @@ def main : IO Unit := jsonDriver fun j => do
   let routesJ ← match (← getField j "routes") with
     | .arr xs => pure xs.toList
     | _ => throw "bad routes"
-  let decls ← routesJ.mapM fun r => do
+  -- optional add_route layer: "top" (Configurator(route_prefix=…)), "prefixes" (include stack, outermost first),
+  -- "usepath" (pattern given as path=), "inherit" (inherit_slash), "nopattern" (neither pattern nor path)
+  let optText (r : Json) (k : String) : Except String (Option Text) :=
+    match r.getObjVal? k with
+    | .ok .null => pure none
+    | .ok v => do pure (some (← jText v))
+    | .error _ => pure none
+  let added ← routesJ.mapM fun r => do
     let name ← jText (← getField r "name")
     let pattern ← jText (← getField r "pattern")
     let preds ← match (← getField r "preds") with
       | .arr ps => ps.toList.mapM jPred
       | _ => throw "bad preds"
     let static : Bool ← getAs r "static"
-    pure ({ name := name, compiled := compileRoute u lib pattern, preds := preds, static := static } : Decl)
+    let top ← optText r "top"
+    let prefixes ← match r.getObjVal? "prefixes" with
+      | .ok (.arr xs) => xs.toList.mapM fun x => (match x with | .null => pure none | v => do pure (some (← jText v)))
+      | _ => pure []
+    let flag (k : String) : Bool := match r.getObjVal? k with | .ok (.bool true) => true | _ => false
+    let args : RouteArgs :=
+      { name := name, pattern := if flag "usepath" || flag "nopattern" then none else some pattern,
+        path := if flag "usepath" then some pattern else none, inheritSlash := flag "inherit", static := static, preds := preds }
+    pure (name, addRoute (prefixAt top prefixes) args)
+  let decls := added.filterMap fun (x : Text × Except AddErr (Text × List Pred × Bool)) =>
+    match x.2 with
+    | .ok (pat, preds, static) => some ({ name := x.1, compiled := compileRoute u lib pat, preds := preds, static := static } : Decl)
+    | .error _ => none
+  let addJ := added.map fun (x : Text × Except AddErr (Text × List Pred × Bool)) =>
+    match x.2 with
+    | .ok (pat, _, _) => tJson pat
+    | .error .patternNone => Json.str "patternNone"
+    | .error .inheritSlash => Json.str "inheritSlash"
   let raw : Option Trav.Bytes ← match (← getField j "path") with
     | .null => pure none
     | p => do
@@ -141,6 +167,7 @@ def main : IO Unit := jsonDriver fun j => do
   let base := [
     ("rxtext", Json.arr (rxs.map fun r => tJson (Rx.print r)).toArray),
     ("rxok", toJson (rxs.map Rx.ok)),
+    ("connected", Json.arr addJ.toArray),
     ("compile", Json.arr compileJ.toArray), ("regex", Json.arr regexJ.toArray), ("gen", Json.arr genJ.toArray),
     ("routelist", toJson (rl.map (·.id))), ("statics", toJson (m.statics.map (·.id))),
     ("unsupported", toJson unsupported)]
